@@ -40,11 +40,41 @@ class Obj:
         return self.name
 
 
+class Weird:
+    """A hashable object that claims to be equal to everything, is falsy and has length 0.  Its hash (and with the default
+    rule its data_id) comes from `key`; `str()` and `repr()` differ.  Nothing in a tree may depend on `==`, truthiness or
+    `len()` of the data it holds."""
+
+    def __init__(self, key):
+        self.key = key
+
+    def __eq__(self, other):
+        return True
+
+    def __ne__(self, other):
+        return False
+
+    def __hash__(self):
+        return hash(("weird", self.key))
+
+    def __bool__(self):
+        return False
+
+    def __len__(self):
+        return 0
+
+    def __str__(self):
+        return f"w-{self.key}"
+
+    def __repr__(self):
+        return f"Weird<{self.key}>"
+
+
 def _obj_rule(data):
     return data.guid if isinstance(data, Obj) else hash(data)
 
 
-FLAVOURS = ["str", "int", "tuple", "dc", "dw", "obj", "expl"]
+FLAVOURS = ["str", "int", "tuple", "dc", "dw", "obj", "expl", "weird"]
 IDCONF = ["default", "callback", "subclass"]
 
 
@@ -94,6 +124,7 @@ class Session:
         self.DW = DictWrapper
         self.dicts = [{"i": i} for i in range(5)]
         self.objs = [Obj(f"g{i}", f"o{i}") for i in range(6)] + [Obj("g0", "o0-twin")]
+        self.weirds = [Weird(i) for i in range(5)] + [Weird(0)]  # the last one: another object with the hash of the first
         self.counters = {}
         self.max_nodes = 0
         self.saw_clone = False
@@ -115,6 +146,8 @@ class Session:
             return self.DW(rng.choice(self.dicts))
         if f == "obj":
             return rng.choice(self.objs)
+        if f == "weird":
+            return rng.choice(self.weirds)
         raise KeyError(f)
 
     def mkid(self, rng=None):
